@@ -41,7 +41,7 @@ m = {
     }],
     "checks": checks,
     "not_applicable": na,
-    "notes": "All verdicts come from the TLA+ text under spec/ (23 modules; DESIGN.md section 14.1 lists them). Checks: python3 harness/run_check.py <id> --tier quick|thorough; exit 0 = held on everything explored (KNOWN-FINDING lines for listed findings), exit 1 + VIOLATION lines otherwise, exit 2 = machinery failure. known_findings.json and known_findings_C07/C08/C09/C19.json are committed and never written by a check (harness/mk_known_cf.py regenerates the tables by hand). seeded/ holds 40 confirmed breaking changes (two independent rounds) with what detects them. harness/selftest.py demonstrates the binding (corrupted traces are rejected).",
+    "notes": "All verdicts come from the TLA+ text under spec/ (31 modules; DESIGN.md section 14.1 lists them). Checks: python3 harness/run_check.py <id> --tier quick|thorough; exit 0 = held on everything explored (KNOWN-FINDING lines for listed findings), exit 1 + VIOLATION lines otherwise, exit 2 = machinery failure. known_findings.json and known_findings_C07/C08/C09/C19.json are committed and never written by a check (harness/mk_known_cf.py regenerates the tables by hand). seeded/ holds 110 confirmed breaking changes (six independent rounds of sub-agents) with what detects them; harness/seedrun2.sh runs the quick checks against one of them on a scratch worktree. harness/selftest.py demonstrates the binding (corrupted line traces, estimands, generator traces and query behaviours are rejected).",
 }
 json.dump(m, open(os.path.join(ROOT, "MANIFEST.json"), "w"), indent=1)
 print("checks:", [c["property_id"] for c in checks], "not_applicable:", len(na))
